@@ -29,6 +29,7 @@ VARIABLES pc, tens, idx, res
 vars == <<pc, tens, idx, res>>
 
 Items == {"i", "in", "s", "s1", "s2", "sr", "n", "e", "a0", "a1", "a2", "b1", "b2"}
+ItemsSmall == {"i", "s", "n", "e", "a1", "b1"}      \* for the longer index tuples of the quick tier (cfg: Items <- ItemsSmall)
 IsInt(x) == x \in {"i", "in"}           \* "in": a negative integer given as a numpy integer scalar
 Sizes == <<2, 3, 4, 5>>
 IsArr(x) == x \in {"a0", "a1", "a2", "b1", "b2"}      \* "a0": a 0-d integer array (an advanced index with the empty shape)
